@@ -7,6 +7,8 @@ import Snmp.Model.Basic
 import Snmp.Model.Py
 import Snmp.Model.Types
 import Snmp.Gen.Facts
+import Snmp.Model.Agent
+import Snmp.Model.Walk
 open Lean Snmp
 
 namespace Driver
@@ -16,6 +18,148 @@ def getNat (j : Json) (k : String) : Except String Nat := j.getObjValAs? Nat k
 def getNats (j : Json) (k : String) : Except String (List Nat) := do
   let a ← j.getObjValAs? (Array Nat) k
   pure a.toList
+
+def hexDigit (n : Nat) : Char := if n < 10 then Char.ofNat (48 + n) else Char.ofNat (87 + n)
+def toHex (b : Bytes) : String := String.ofList (b.flatMap fun x => [hexDigit (x / 16 % 16), hexDigit (x % 16)])
+def hexVal (c : Char) : Except String Nat :=
+  if '0' ≤ c ∧ c ≤ '9' then pure (c.toNat - 48)
+  else if 'a' ≤ c ∧ c ≤ 'f' then pure (c.toNat - 87)
+  else if 'A' ≤ c ∧ c ≤ 'F' then pure (c.toNat - 55)
+  else throw s!"bad hex digit {c}"
+def ofHex (s : String) : Except String Bytes := do
+  let rec go : List Char → Except String Bytes
+    | [] => pure []
+    | [_] => throw "odd hex length"
+    | a :: b :: rest => do
+      let hi ← hexVal a
+      let lo ← hexVal b
+      let tl ← go rest
+      pure ((hi * 16 + lo) :: tl)
+  go s.toList
+
+def oidOfJson (j : Json) : Except String Oid := do
+  let a ← fromJson? (α := Array Nat) j
+  pure a.toList
+
+def valOfJson (j : Json) : Except String Val := do
+  let a ← j.getArr?
+  let kind ← (a[0]?.getD Json.null).getStr?
+  let arg (i : Nat) : Json := a[i]?.getD Json.null
+  match kind with
+  | "int" => pure (.int (← (arg 1).getInt?))
+  | "str" => pure (.str (← ofHex (← (arg 1).getStr?)))
+  | "null" => pure .null
+  | "oid" => pure (.oid (← oidOfJson (arg 1)))
+  | "ip" => pure (.ip (← ofHex (← (arg 1).getStr?)))
+  | "counter32" => pure (.counter32 (← (arg 1).getInt?))
+  | "gauge32" => pure (.gauge32 (← (arg 1).getInt?))
+  | "ticks" => pure (.ticks (← (arg 1).getInt?))
+  | "opaque" => pure (.opaque (← ofHex (← (arg 1).getStr?)))
+  | "nsap" => pure (.nsap (← (arg 1).getInt?))
+  | "counter64" => pure (.counter64 (← (arg 1).getInt?))
+  | "noSuchObject" => pure .noSuchObject
+  | "noSuchInstance" => pure .noSuchInstance
+  | "endOfMibView" => pure .endOfMibView
+  | "unknown" => pure (.unknown (← (arg 1).getNat?) (← ofHex (← (arg 2).getStr?)))
+  | k => throw s!"bad value kind {k}"
+
+def valToJson : Val → Json
+  | .int v => toJson (#[toJson "int", toJson v] : Array Json)
+  | .str b => toJson (#[toJson "str", toJson (toHex b)] : Array Json)
+  | .null => toJson (#[toJson "null"] : Array Json)
+  | .oid o => toJson (#[toJson "oid", toJson o] : Array Json)
+  | .ip b => toJson (#[toJson "ip", toJson (toHex b)] : Array Json)
+  | .counter32 v => toJson (#[toJson "counter32", toJson v] : Array Json)
+  | .gauge32 v => toJson (#[toJson "gauge32", toJson v] : Array Json)
+  | .ticks v => toJson (#[toJson "ticks", toJson v] : Array Json)
+  | .opaque b => toJson (#[toJson "opaque", toJson (toHex b)] : Array Json)
+  | .nsap v => toJson (#[toJson "nsap", toJson v] : Array Json)
+  | .counter64 v => toJson (#[toJson "counter64", toJson v] : Array Json)
+  | .noSuchObject => toJson (#[toJson "noSuchObject"] : Array Json)
+  | .noSuchInstance => toJson (#[toJson "noSuchInstance"] : Array Json)
+  | .endOfMibView => toJson (#[toJson "endOfMibView"] : Array Json)
+  | .unknown t b => toJson (#[toJson "unknown", toJson t, toJson (toHex b)] : Array Json)
+
+def vbOfJson (j : Json) : Except String VarBind := do
+  let a ← j.getArr?
+  pure (← oidOfJson (a[0]?.getD Json.null), ← valOfJson (a[1]?.getD Json.null))
+
+def vbToJson (vb : VarBind) : Json := toJson (#[toJson vb.1, valToJson vb.2] : Array Json)
+
+def vbsOfJson (j : Json) : Except String (List VarBind) := do
+  let a ← j.getArr?
+  a.toList.mapM vbOfJson
+
+def errToJson : Err → Json
+  | .snmpError => toJson (#[toJson "snmpError"] : Array Json)
+  | .errorResponse st cls off => toJson (#[toJson "errorResponse", toJson st, toJson cls, toJson off] : Array Json)
+  | .noSuchOID => toJson (#[toJson "noSuchOID"] : Array Json)
+  | .faulty => toJson (#[toJson "faulty"] : Array Json)
+  | .invalidResponseId => toJson (#[toJson "invalidResponseId"] : Array Json)
+  | .timeout => toJson (#[toJson "timeout"] : Array Json)
+  | .authError => toJson (#[toJson "authError"] : Array Json)
+  | .unknownUser => toJson (#[toJson "unknownUser"] : Array Json)
+  | .decryptError => toJson (#[toJson "decryptError"] : Array Json)
+  | .unsupportedLevel => toJson (#[toJson "unsupportedLevel"] : Array Json)
+  | .typeError => toJson (#[toJson "typeError"] : Array Json)
+  | .other w => toJson (#[toJson "other", toJson w] : Array Json)
+
+/-- agent description: {"db": [[oid, val], …]} or {"table": [[[oid, k|null], next|null], …]}
+    plus optional "policy": {"rows": n|null, "cut": n, "stop": bool} -/
+def agentOfJson (j : Json) : Except String (AgentFn × List VarBind × BulkPolicy) := do
+  let pol : BulkPolicy ← match j.getObjVal? "policy" with
+    | .ok p => do
+      let rows := match p.getObjVal? "rows" with
+        | .ok r => r.getNat?.toOption
+        | .error _ => none
+      let cut := (p.getObjValAs? Nat "cut").toOption.getD 0
+      let stop := (p.getObjValAs? Bool "stop").toOption.getD true
+      pure { rows := rows, cut := cut, stopAfterEomRow := stop }
+    | .error _ => pure {}
+  let db ← match j.getObjVal? "db" with
+    | .ok d => vbsOfJson d
+    | .error _ => pure []
+  match j.getObjVal? "table" with
+  | .ok t => do
+    let rows ← t.getArr?
+    let tbl ← rows.toList.mapM fun r => do
+      let a ← r.getArr?
+      let key ← (a[0]?.getD Json.null).getArr?
+      let o ← oidOfJson (key[0]?.getD Json.null)
+      let k := (key[1]?.getD Json.null).getNat?.toOption
+      let nxt := match a[1]?.getD Json.null with
+        | Json.null => none
+        | x => (oidOfJson x).toOption
+      pure ((o, k), nxt)
+    let valOf : Oid → Val := fun o =>
+      match db.find? (fun e => e.1 == o) with
+      | some e => e.2
+      | none => .int ((o.foldl (· + ·) 0 % 1000 : Nat) : Int)
+    pure (Agent.ofTable tbl valOf, db, pol)
+  | .error _ => pure (Agent.conformant db, db, pol)
+
+def eventToJson : Walk.Event → Json
+  | .req oids => toJson (#[toJson "req", toJson oids] : Array Json)
+  | .yield vb => toJson (#[toJson "yield", vbToJson vb] : Array Json)
+
+def outcomeToJson : Walk.Outcome → Json
+  | .done => toJson (#[toJson "done"] : Array Json)
+  | .error e => toJson (#[toJson "error", errToJson e] : Array Json)
+  | .outOfFuel => toJson (#[toJson "outOfFuel"] : Array Json)
+
+def walkRun (j : Json) : Except String Json := do
+  let (a, db, pol) ← agentOfJson (← j.getObjVal? "agent")
+  let rootsJ ← (← j.getObjVal? "roots").getArr?
+  let roots ← rootsJ.toList.mapM oidOfJson
+  let kind ← j.getObjValAs? String "kind"
+  let lenient := (j.getObjValAs? Bool "lenient").toOption.getD false
+  let fuel ← getNat j "fuel"
+  let x := Walk.exchangeOf a db pol
+  let r ← match kind with
+    | "getnext" => pure (Walk.walkGetnext x roots lenient fuel)
+    | "bulk" => pure (Walk.walkBulk x (← getNat j "size") roots fuel)
+    | k => throw s!"bad walk kind {k}"
+  pure (Json.mkObj [("events", toJson (r.events.map eventToJson)), ("outcome", outcomeToJson r.outcome)])
 
 def handle (j : Json) : Except String Json := do
   let op ← j.getObjValAs? String "op"
@@ -28,6 +172,7 @@ def handle (j : Json) : Except String Json := do
   | "types.ticksToMicros" => pure (toJson (Types.ticksToMicros (← getInt j "v")))
   | "types.ipToBytes" => pure (toJson (Types.ipToBytes (← getNat j "v")))
   | "types.fromBE" => pure (toJson (Types.fromBE (← getNats j "b")))
+  | "walk.run" => walkRun j
   | _ => throw s!"bad-op {op}"
 
 end Driver
